@@ -119,6 +119,16 @@ def methods_of(prog, k):
             out["inc_f%d" % f] = (("inc", f), [t], t)
             out["twice_f%d" % f] = (("twice", f), [t], t)
             out["bump_f%d" % f] = (("bump", f), [me, t], None)
+        # READ-ONLY methods: an expression over the field (prefix operator applied directly to the field access, a
+        # comparison, an arithmetic expression); calling them must leave every object unchanged (C08_readonly_method_changes_nothing)
+        if t == INT:
+            out["neg_f%d" % f] = (("neg", f), [], INT)
+            out["sum_f%d" % f] = (("sum", f), [], INT)
+            out["pos_f%d" % f] = (("pos", f), [], BOOL)
+        if t == BOOL:
+            out["not_f%d" % f] = (("not", f), [], BOOL)
+        if t == STR:
+            out["cat_f%d" % f] = (("cat", f), [], STR)
         if t[0] == "list":
             out["push_f%d" % f] = (("push", f), [t[1]], None)
         if is_obj(t):
@@ -142,6 +152,7 @@ def methods_of(prog, k):
 
 
 OUTER_KINDS = ("rdo", "wro", "addo")
+RO_KINDS = ("neg", "sum", "pos", "not", "cat")          # read-only expression methods (Objects/Model.v MRo)
 
 
 def has_outer_ops(prog, hist):
@@ -199,6 +210,10 @@ def render_method(prog, k, name, sig):
         if kind == "wro":
             return "\tfn %s(self, nv: %s) {\n\t\tmodify %s = nv\n\t}\n" % (name, T(ptypes[0]), g)
         return "\tfn %s(self) -> %s {\n\t\treturn self.f%d + %s\n\t}\n" % (name, T(rt), m[2], g)
+    if kind in RO_KINDS:
+        expr = {"neg": "-self.%s", "sum": "self.%s + self.%s", "pos": "self.%s > 0", "not": "!self.%s", "cat": 'self.%s + ""'}[kind]
+        expr = expr % ((f, f) if kind == "sum" else (f,))
+        return "\tfn %s(self) -> %s {\n\t\treturn %s\n\t}\n" % (name, T(rt), expr)
     if kind == "dup":
         return "\tfn dup(self) -> Self {\n\t\treturn Self(%s)\n\t}\n" % ", ".join("self.f%d" % x for x in m[1:])
     if kind == "get":
@@ -511,6 +526,9 @@ class Oracle:
         if kind == "addo":
             return o_add(o.f[m[2]], self.outer[m[1]])
         f = m[1]
+        if kind in RO_KINDS:
+            v = o.f[f]
+            return {"neg": lambda: o_int(-v), "sum": lambda: o_add(v, v), "pos": lambda: v > 0, "not": lambda: not v, "cat": lambda: v}[kind]()
         if kind in ("get", "getb"):
             return o.f[f]
         if kind in ("set", "setb"):
